@@ -193,3 +193,84 @@ def acyclic_solve_rec_by_summing(cx):
     cx.call('Add', add, trusted='SUM over the terms of the expanded summand of SUM_k term = SUM_k summand (linearity)')
     cx.set_hook('binop', lambda ex, st, op, a, b: VR(EXPO(toreal(a), toreal(b))) if op == 'Pow' else None)
     cx.ensures(lambda st, r: toreal(r) == EXPO(c.t, N - z3.ToReal(start.t)) * first.t + SUMV(EXPO(c.t, N - K - 1) * INH(K), z3.ToReal(start.t), N - 1))
+
+
+@contract('utils/expressions.py', 'get_all_roots', ['C04', 'C17'])
+def get_all_roots_c(cx):
+    """numeric mode: every isolating interval [h, l] with multiplicity m yields the root (h + l)/2 with multiplicity m; the result is flagged exact
+    only if EVERY interval is a point; if the multiplicities do not add up to the degree (roots were lost: D17) the call is refused instead of
+    answered.  Symbolic mode: the roots as delivered by the CAS, flagged exact unless complex roots were made numeric and one of them was not exact."""
+    TS, mk, (acc_iv, acc_m) = tuple_sort([DTuple(DR, DR), DI])
+    IV, mkiv, (acc_h, acc_l) = tuple_sort([DR, DR])
+    numeric = cx.bool('numeric'); ncroots = cx.bool('numeric_croots'); eps = cx.real('eps')
+    reals = cx.seq('real_intervals', DTuple(DTuple(DN, DN), DI)); cplx = cx.seq('complex_intervals', DTuple(DTuple(DN, DN), DI))       # interval endpoints are numbers: == is by value
+    sym_roots = cx.seq('symbolic_roots', DTuple(DR, DI))
+    ALL_SUPPORTED = cx.bool('complex_isolation_supported'); DEG = cx.int('degree')
+    poly = cx.ref('poly')
+    cx.param(poly=poly, numeric=numeric, numeric_croots=ncroots, eps=eps)
+
+    def intervals(ex, st, r, a, kw):
+        if 'all' in kw:
+            if not ex.dry: ex.raises_in_try = True
+            return VTuple(reals, cplx)
+        return reals
+    cx.call('intervals', intervals, trusted='Poly.intervals(all=True) = (real, complex) isolating intervals with multiplicities; Poly.intervals() = the real ones; NotImplementedError where complex isolation is unsupported')
+    cx.isinstance(lambda ex, st, o, cls: z3.BoolVal(o.kind == 'tuple'))
+    cx.call('degree', lambda ex, st, r, a, kw: DEG)
+    cx.call('all_roots', lambda ex, st, r, a, kw: sym_roots, trusted='Poly.all_roots(multiple=False): (root, multiplicity) pairs')
+    cx.call('roots', lambda ex, st, r, a, kw: V('opaque')); cx.call('items', lambda ex, st, r, a, kw: V('opaque')); cx.call('list', lambda ex, st, r, a, kw: sym_roots if a and a[0].kind == 'opaque' else NotImplemented)
+    NUMR = z3.Function('numerified_root', R, R); NUME = z3.Function('numerified_is_exact', R, B)
+    cx.call('numerify_croots', lambda ex, st, r, a, kw: VTuple(VR(NUMR(toreal(a[0]))), VB(NUME(toreal(a[0])))), trusted='numerify_croots(r): (numeric value, exactness)')
+    cx.call('NotImplementedError', lambda ex, st, r, a, kw: V('exc', 'NotImplementedError'))
+    cx.set_hook('empty_kinds', {'tmp': DSeq(DTuple(DTuple(DN, DN), DI)), 'result': DSeq(DTuple(DR, DI))})
+    RS, mkr, (acc_root, acc_mult) = tuple_sort([DR, DI])
+    j = z3.Int('j')
+    MSUM = z3.RecFunction('multiplicity_sum', z3.SeqSort(RS), I, I); sq = z3.Const('sq', z3.SeqSort(RS)); kk = z3.Int('kk')
+    z3.RecAddDefinition(MSUM, [sq, kk], z3.If(kk <= 0, 0, MSUM(sq, kk - 1) + acc_mult(sq[kk - 1])))
+
+    def sum_(ex, st, r, a, kw):
+        c = a[0]
+        if c.kind == 'comp' and c.x['src'].kind == 'seq' and isinstance(c.x['elt'], ast.Name) and isinstance(c.x['target'], ast.Tuple) \
+                and len(c.x['target'].elts) == 2 and isinstance(c.x['target'].elts[1], ast.Name) and c.x['target'].elts[1].id == c.x['elt'].id:
+            return VI(MSUM(c.x['src'].t, z3.Length(c.x['src'].t)))            # sum([m for _, m in result])
+        return NotImplemented
+    import ast
+    cx.call('sum', sum_)
+    both = z3.Concat(reals.t, cplx.t)
+    cx.invariant(0, lambda st: st['tmp'].t == z3.If(st['$i0'].t <= 0, z3.Empty(reals.t.sort()), z3.If(st['$i0'].t == 1, reals.t, both)))
+
+    def inv_numeric(st):
+        P = st['poly_roots'].t; i = st['$i1'].t; res = st['result'].t
+        mid = lambda q: (acc_h(acc_iv(P[q])) + acc_l(acc_iv(P[q]))) / 2
+        return z3.And(z3.Length(res) == i, MSUM(res, i) == MSUM(res, z3.Length(res)),
+                      z3.ForAll([j], z3.Implies(z3.And(0 <= j, j < i), z3.And(acc_root(res[j]) == mid(j), acc_mult(res[j]) == acc_m(P[j])))),
+                      st['exact'].t == z3.ForAll([j], z3.Implies(z3.And(0 <= j, j < i), acc_h(acc_iv(P[j])) == acc_l(acc_iv(P[j])))))
+    cx.invariant(1, inv_numeric)
+
+    def inv_symbolic(st):
+        P = st['poly_roots'].t; i = st['$i2'].t; res = st['result'].t
+        return z3.And(z3.Length(res) == i,
+                      z3.ForAll([j], z3.Implies(z3.And(0 <= j, j < i), z3.And(acc_mult(res[j]) == acc_mult(P[j]),
+                                                                                   acc_root(res[j]) == z3.If(ncroots.t, NUMR(acc_root(P[j])), acc_root(P[j]))))),
+                      st['exact'].t == z3.Implies(ncroots.t, z3.ForAll([j], z3.Implies(z3.And(0 <= j, j < i), NUME(acc_root(P[j]))))))
+    cx.invariant(2, inv_symbolic)
+
+    def post(st, r):
+        res, ex_ = r.t[0].t, r.t[1].t
+        if 'tmp' in st.vars or st['numeric'].kind == 'bool':
+            pass
+        P = st['poly_roots'].t
+        num = z3.And(z3.Length(res) == z3.Length(P), MSUM(res, z3.Length(res)) == DEG.t,
+                     z3.ForAll([j], z3.Implies(z3.And(0 <= j, j < z3.Length(P)), z3.And(acc_root(res[j]) == (acc_h(acc_iv(P[j])) + acc_l(acc_iv(P[j]))) / 2, acc_mult(res[j]) == acc_m(P[j])))),
+                     ex_ == z3.ForAll([j], z3.Implies(z3.And(0 <= j, j < z3.Length(P)), acc_h(acc_iv(P[j])) == acc_l(acc_iv(P[j]))))) if P.sort() == reals.t.sort() else None
+        sym = z3.And(z3.Length(res) == z3.Length(P),
+                     ex_ == z3.Implies(ncroots.t, z3.ForAll([j], z3.Implies(z3.And(0 <= j, j < z3.Length(P)), NUME(acc_root(P[j])))))) if P.sort() != reals.t.sort() else None
+        return num if num is not None else sym
+    cx.ensures(post)
+
+    def exc(st, e):
+        if 'result' in st.vars and st['result'].kind == 'seq' and not st['result'].get('empty'):
+            res = st['result'].t
+            return MSUM(res, z3.Length(res)) != DEG.t           # refused only when roots were lost
+        return z3.BoolVal(True)                                  # errors of the CAS itself (all_roots for degree >= 5) are passed on
+    cx.raises(exc)
